@@ -98,6 +98,26 @@ func (c11) Case(c *core.Ctx) {
 			break
 		}
 	}
+	if len(segs) >= 2 && r.Intn(6) == 0 {
+		// bystanders whose key TEXT equals a dotted piece of the path: a top-level entry named like the whole parent path,
+		// and, in each map on the way, an entry named like the dotted remainder. They are ordinary entries (a key may
+		// contain a dot); no path addresses them, and they must come through every operation unchanged.
+		root[strings.Join(segs[:len(segs)-1], ".")] = jv.M{segs[len(segs)-1]: "bystander", "x": jv.L{"y"}}
+		var cc interface{} = root
+		for j := 0; j < len(segs)-1; j++ {
+			mm, ok := cc.(map[string]interface{})
+			if !ok {
+				break
+			}
+			if rem := strings.Join(segs[j:], "."); j > 0 || len(segs) > 2 {
+				if _, clash := mm[rem]; !clash && strings.Contains(rem, ".") {
+					mm[rem] = "bystander"
+				}
+			}
+			cc = mm[segs[j]]
+		}
+		c.Count("bystanders-with-dotted-keys")
+	}
 	path := strings.Join(segs, ".")
 	last := segs[len(segs)-1]
 	if len(segs) == 1 {
@@ -132,6 +152,7 @@ func (c11) Case(c *core.Ctx) {
 		defer ResetDefaults()
 	}
 	c.Eval()
+	failedCalls(c, 8)
 	_, exB, pimB, _, _ := nav(root)
 	if pimB && len(segs) >= 2 {
 		c.NonTrivial(before, path)
